@@ -263,33 +263,29 @@ def _domain_metrics(check: Check):
   ff = FuncFlow.of(repo, step)
   check.analysed(step)
   p_state, p_batch = step.positional_params[:2]
-  mask = _mask_var(ff, p_batch)
   segs = [c for _, c in ff.calls() if ff.ext(c.func) == 'jax.ops.segment_sum']
   seen = set()
   segs = [c for c in segs if not (id(c) in seen or seen.add(id(c)))]
-  if len(segs) != 2 or mask is None:
-    check.inconclusive('R-MASK.pair', step, 'segment sums', f'{len(segs)} segment_sum calls / mask variable {mask}')
+
+  def mentions_mask(e):
+    return any(isinstance(x, ast.Subscript) and ff.param_of(x.value) == p_batch and maskflow.is_mask_key(ff, x.slice) for x in ff.deep_walk(e))
+
+  def mentions_loss(e):
+    return any(isinstance(x, ast.Call) and isinstance(x.func, ast.Name) and x.func.id == 'per_example_loss' for x in ff.deep_walk(e))
+  if len(segs) != 2:
+    check.inconclusive('R-MASK.pair', step, 'segment sums', f'{len(segs)} segment_sum calls (expected the loss sum and the count)')
     return
-  loss_seg = cnt_seg = None
-  for c in segs:
-    data = c.args[0]
-    uses_mask_only = all(isinstance(x, ast.Name) and x.id in (mask, 'jnp') or not isinstance(x, ast.Name) for x in ast.walk(data))
-    if uses_mask_only and any(isinstance(x, ast.Name) and x.id == mask for x in ast.walk(data)):
-      cnt_seg = c
-    else:
-      loss_seg = c
-  ok = False
-  why = ''
-  if loss_seg is not None and cnt_seg is not None:
-    same_ids = same(loss_seg.args[1], cnt_seg.args[1]) and same(loss_seg.args[2], cnt_seg.args[2])
-    masked = False
-    for x in ff.expand(loss_seg.args[0]):
-      if isinstance(x, ast.BinOp) and isinstance(x.op, ast.Mult) and any(isinstance(s, ast.Name) and s.id == mask for s in (x.left, x.right)):
-        masked = True
-    ok = same_ids and masked
-    why = f'loss multiplied by the mask before the segment sum={masked}; same ids and number of segments={same_ids}'
-  check.ob('R-MASK.pair', step, 'segment_sum(loss * mask, ids, n) / segment_sum(mask, ids, n)', ok,
-           f'per-domain loss sums and counts ignore padded rows and agree on the segmentation: {why}')
+  loss_seg = next((c for c in segs if mentions_loss(c.args[0])), None)
+  cnt_seg = next((c for c in segs if c is not loss_seg), None)
+  if loss_seg is None or cnt_seg is None:
+    check.inconclusive('R-MASK.pair', step, 'segment sums', 'cannot tell the loss sum from the count')
+    return
+  same_ids = same(loss_seg.args[1], cnt_seg.args[1]) and same(loss_seg.args[2], cnt_seg.args[2])
+  masked = mentions_mask(loss_seg.args[0])
+  counted = mentions_mask(cnt_seg.args[0]) and not mentions_loss(cnt_seg.args[0])
+  check.ob('R-MASK.pair', step, 'segment_sum(loss * mask, ids, n) / segment_sum(mask, ids, n)', same_ids and masked and counted,
+           f'per-domain loss sums and counts ignore padded rows and agree on the segmentation: loss multiplied by the batch mask before the '
+           f'segment sum={masked}; the count is the segment sum of the mask={counted}; same ids and number of segments={same_ids}')
 
 
 def _domain_mean(check: Check):
